@@ -7,5 +7,5 @@ CONSTANTS
   Queries = {"all", "g1"}
   MaxDocs = 6
   MaxParts = 3
-INVARIANTS AlgebraSound Disjoint
+INVARIANTS AlgebraSound Disjoint EmptyNeutral
 CHECK_DEADLOCK FALSE
